@@ -57,7 +57,7 @@ Next ==
   /\ \/ /\ fam = "seq" /\ Len(lines) = 1 /\ cuts' = cuts
         /\ \/ lines' = lines
            \/ \E c \in Full : lines' = Append(lines, c)
-           \/ FULL3 /\ \E c \in Full, d \in Full : lines' = lines \o <<c, d>>
+           \/ FULL3 /\ (ALLCFG \/ cfg.canfd) /\ \E c \in Full, d \in Full : lines' = lines \o <<c, d>>
      \/ /\ fam = "seq" /\ Len(lines) = LONG - 1 /\ LONG > 2 /\ cuts' = cuts
         /\ \E c \in Red : lines' = Append(lines, c)
      \/ /\ fam = "cut" /\ lines' = lines
